@@ -21,10 +21,11 @@ RShape(sh, r) ==
     [] sh = "insafe"  -> TSafe(31, TSlice(30, <<r>>))
     [] sh = "svfield" -> TSafe(31, TStruct(30, <<r>>, <<TRUE>>))
     \* statically typed containers: []RedactableString, map[RedactableString]RedactableString (as key and as value)
+    [] sh = "rvro"    -> TRValueRO(33, r)                                 \* reflect.Value through an unexported field
     [] sh = "tslice"  -> TTSlice(30, <<r, KeyR>>)
     [] sh = "tmapkey" -> TTMap(30, <<r, KeyR>>)
     [] sh = "tmapval" -> TTMap(30, <<KeyR, r>>)
-RShapes == {"top", "slice", "mapval", "structE", "structu", "ptr", "deep", "safe", "insafe", "svfield", "tslice", "tmapkey", "tmapval"}
+RShapes == {"rvro", "top", "slice", "mapval", "structE", "structu", "ptr", "deep", "safe", "insafe", "svfield", "tslice", "tmapkey", "tmapval"}
 \* what the statement says the reprint is: the punctuation of the shape around the unchanged redactable
 RWrap(sh, b, plus) ==
   CASE sh = "top"     -> b
@@ -35,36 +36,51 @@ RWrap(sh, b, plus) ==
     [] sh = "ptr"     -> <<38, 123>> \o (IF plus THEN <<65, 58>> ELSE <<>>) \o b \o <<125>>
     [] sh = "deep"    -> <<123>> \o (IF plus THEN <<97, 58>> ELSE <<>>) \o <<91>> \o b \o <<93, 125>>
     [] sh = "safe"    -> b
+    [] sh = "rvro"    -> b
     [] sh = "insafe"  -> <<91>> \o b \o <<93>>
     [] sh = "svfield" -> <<123>> \o (IF plus THEN <<97, 58>> ELSE <<>>) \o b \o <<125>>
     [] sh = "tslice"  -> <<91>> \o b \o <<SP, 107, 93>>
     [] sh = "tmapkey" -> MapOpen \o b \o <<58, 107, 93>>
     [] sh = "tmapval" -> MapOpen \o <<107, 58>> \o b \o <<93>>
+\* a StringBuilder as an operand: what it prints is the redactable it holds (StringBuilder.SafeFormat), whatever the verb
+BuilderOps(p) == {<<SSafeString(<<A>>), SUnsafeString(p), SSafeString(<<A>>)>>, <<>>, <<SWriteStr(p), SSafeRune(8249)>>}
+                 \cup IF Slice = "compose" THEN {<<SUnsafeString(p)>>, <<SUnsafeString(p), SPrint(<<TStr(9, <<A>> \o p)>>)>>} ELSE {}
 R0(p) == Out(Sprint(<<TStr(1, p)>>))                             \* a redactable obtained from the library
 JoinOf(d, a, b) == Out(SBRun(<<SPrint(<<TRStr(4, a)>>), SPrint(<<TRStr(5, d)>>), SPrint(<<TRStr(6, b)>>)>>))     \* redact.Join
 ComposeRoots == Pay(IF Slice = "compose" THEN 2 ELSE 1)
 ComposeDelims == {<<44>>, StartM \o <<44>> \o EndM, <<NL>>}
-ComposeExpand(p) ==
-  LET r == R0(p) IN
-  {Case("Sprintf", f, <<RShape(sh, TRStr(2, r))>>, <<>>) : f \in ComposeFormats, sh \in RShapes}
-  \cup {Case("Sprintf", Fv, <<RShape(sh, TRBytes(2, r))>>, <<>>) : sh \in RShapes \ {"tslice", "tmapkey", "tmapval"}}
+\* the cases of one payload, in four shards (root = <<payload, shard>>) so that TLC's workers share the work
+ComposeExpand(p, sh4) ==
+  LET r == R0(p)
+      Fmts == CASE sh4 = 0 -> {Fv, Fs} [] sh4 = 1 -> {F5q, Fm8x} [] sh4 = 2 -> {Fp1s, Fd, FplusV} [] OTHER -> {}
+  IN
+  {Case("Sprintf", f, <<RShape(sh, TRStr(2, r))>>, <<>>) : f \in Fmts, sh \in RShapes}
+  \cup (IF sh4 # 3 THEN {} ELSE
+  {Case("Sprintf", Fv, <<RShape(sh, TRBytes(2, r))>>, <<>>) : sh \in RShapes \ {"tslice", "tmapkey", "tmapval"}}
   \cup {Case("Sprint", <<>>, <<TRStr(2, r)>>, <<>>)}
   \* an empty unsafe operand right before the redactable; Go-syntax printing of typed containers of redactables
   \cup {Case("Sprintf", Fs \o Fv, <<TStr(8, <<>>), TRStr(2, r)>>, <<>>), Case("Sprint", <<>>, <<TStr(8, <<>>), TRStr(2, r)>>, <<>>)}
   \cup {Case("Sprintf", FsharpV, <<RShape(sh, TRStr(2, r))>>, <<>>) : sh \in {"tslice", "tmapkey", "slice", "structE"}}
-  \cup UNION {{Case("Sprintf", <<120>> \o Fv \o <<121>> \o Fs \o <<122>>, <<TRStr(2, r), TRStr(7, R0(q))>>, <<>>),
-               Case("Sprint", <<>>, <<TRStr(2, JoinOf(d, r, R0(q)))>>, <<>>),
-               Case("Sprintf", F5q, <<TSlice(30, <<TRStr(2, JoinOf(d, r, R0(q))), TRStr(7, r)>>)>>, <<>>)}
-              : q \in {<<>>, <<A>>, <<NL>>, StartM, <<A, 226>>}, d \in ComposeDelims}
+  \cup UNION {LET rq == R0(q)  jn == JoinOf(d, r, rq) IN
+              {Case("Sprintf", <<120>> \o Fv \o <<121>> \o Fs \o <<122>>, <<TRStr(2, r), TRStr(7, rq)>>, <<>>),
+               Case("Sprint", <<>>, <<TRStr(2, jn)>>, <<>>),
+               Case("Sprintf", F5q, <<TSlice(30, <<TRStr(2, jn), TRStr(7, r)>>)>>, <<>>)}
+              : q \in {<<>>, <<A>>, <<NL>>, StartM, <<A, 226>>}, d \in ComposeDelims})
+  \cup (IF sh4 # 2 THEN {} ELSE
+  UNION {LET bld == TBuilder(40, ops) IN          \* (one syntactic reference: TLC's start-up cost grows with each)
+         {Case("Sprintf", f, <<bld>>, <<>>) : f \in {Fv, Fs, F5q, Fd, Fm8x}}
+              \cup {Case("Sprint", <<>>, <<bld>>, <<>>), Case("Sprintf", Fv, <<TSlice(30, <<bld, TRStr(2, r)>>)>>, <<>>),
+                    Case("Sprintf", Fv, <<TUnsafe(41, bld)>>, <<>>), Case("Sprintf", Fs, <<TSafe(41, bld)>>, <<>>)}
+              : ops \in BuilderOps(p)})
 
 
-CInit == lvl = 0 /\ c = NoCase /\ root \in ComposeRoots
-CNext == lvl = 0 /\ lvl' = 1 /\ root' = root /\ c' \in ComposeExpand(root)
+CInit == lvl = 0 /\ c = NoCase /\ root \in ComposeRoots \X (0..3)
+CNext == lvl = 0 /\ lvl' = 1 /\ root' = root /\ c' \in ComposeExpand(root[1], root[2])
 CSpec == CInit /\ [][CNext]_allvars
 
 \* C08 on the slice "compose"
 C08Holds(k, r) ==
-  LET out == Out(r)  r0 == R0(root) IN
+  LET out == Out(r)  r0 == R0(root[1]) IN
   /\ WellFormed(out) /\ LineSafe(out)                                   \* closure: still a redactable
   \* re-printing is identity, whatever the verb, flags and container
   /\ \A sh \in RShapes :
@@ -73,7 +89,14 @@ C08Holds(k, r) ==
              \* Go syntax: type names and braces around it, the redactable itself unchanged (at any depth)
              THEN \E i \in 0..(Len(out) - Len(r0)) : SubSeq(out, i + 1, i + Len(r0)) = r0
              ELSE out = RWrap(sh, r0, k.f = FplusV)
-  /\ (Len(k.ts) = 1 /\ k.ts[1].k = "slice" /\ Len(k.ts[1].xs) = 2) =>
+  \* a StringBuilder operand prints exactly what it holds; under Unsafe() its text (markers stripped) in one envelope
+  /\ (Len(k.ts) = 1 /\ k.ts[1].k = "builder") => out = BuilderText(k.ts[1])
+  /\ (Len(k.ts) = 1 /\ k.ts[1].k = "safe" /\ k.ts[1].xs[1].k = "builder") => out = BuilderText(k.ts[1].xs[1])
+  /\ (Len(k.ts) = 1 /\ k.ts[1].k = "unsafe" /\ k.ts[1].xs[1].k = "builder") =>
+        (DeleteEnvelopes(out) = OnlyOf(Strip(BuilderText(k.ts[1].xs[1])), NL) /\ Strip(out) = EscapeMarkers(Strip(BuilderText(k.ts[1].xs[1]))))
+  /\ (Len(k.ts) = 1 /\ k.ts[1].k = "slice" /\ Len(k.ts[1].xs) = 2 /\ k.ts[1].xs[1].k = "builder") =>
+        out = <<91>> \o BuilderText(k.ts[1].xs[1]) \o <<SP>> \o k.ts[1].xs[2].b \o <<93>>
+  /\ (Len(k.ts) = 1 /\ k.ts[1].k = "slice" /\ Len(k.ts[1].xs) = 2 /\ k.ts[1].xs[1].k # "builder") =>
         out = <<91>> \o k.ts[1].xs[1].b \o <<SP>> \o k.ts[1].xs[2].b \o <<93>>
   /\ (Len(k.ts) = 1 /\ k.e = "Sprint" /\ k.ts[1].k = "rstring") =>
         /\ out = k.ts[1].b                                               \* Sprint(Sprint(a)) = Sprint(a), joined ones too
@@ -95,7 +118,7 @@ Check == lvl = 1 =>
   LET r == Run(c)  ok == ~Exc(r) IN
   /\ Holds("C08", ok /\ C08Holds(c, r))
   /\ Holds("C08join", (c.e = "Sprint" /\ c.ts[1].id = 2 /\ Len(c.ts[1].b) = 0) =>
-              \A d \in ComposeDelims : \A q \in {<<>>, <<NL>>, StartM, <<A, 226>>} : C08Join(d, R0(root), R0(q)))
+              \A d \in ComposeDelims : \A q \in {<<>>, <<NL>>, StartM, <<A, 226>>} : C08Join(d, R0(root[1]), R0(q)))
   /\ (EmitOn => PrintT(ToJson([c |-> c, exc |-> ~ok, out |-> IF ok THEN Out(r) ELSE <<>>, rt |-> r.rt,
                                 calls |-> r.calls, werr |-> r.wrappedErr])))
 =============================================================================
